@@ -428,7 +428,7 @@ class Tables(object):
                        form=st.sampled_from(['getitem', 'getitem', 'call', 'call', 'call', 'call', 'chain', 'chain', 'value', 'value', 'apply', 'apply_defaults', 'factory_pair', 'factory_pair', 'same_fn_two_keys', 'same_fn_twice']),
                        mode=st.sampled_from(['fit', 'fit', 'scalar', 'scalar', 'len1', 'len1', 'misfit', 'misfit', 'range', 'strn']),
                        vals=_vals, k=st.integers(0, 9), fn2=st.sampled_from(sorted(F1)), shape=st.sampled_from(SHAPES)),
-        'rename': dict(t=_t, col=_ci, form=st.sampled_from(['kw', 'relabel_kw', 'dict', 'prefix', 'suffix', 'func', 'list'])),
+        'rename': dict(t=_t, col=_ci, form=st.sampled_from(['kw', 'relabel_kw', 'dict', 'prefix', 'suffix', 'func', 'list', 'swap', 'swap', 'rotate', 'chain'])),
         'do': dict(t=_t, fn=st.sampled_from(sorted(F1)), fn2=st.sampled_from(sorted(F1)), f2=st.sampled_from(sorted(F2)), cols=st.lists(_ci, min_size=1, max_size=3), other=_ci,
                    form=st.sampled_from(['all', 'args', 'list', 'empty_list', 'two_fns', 'two_fns', 'with_other', 'with_other']), shape=st.sampled_from(DO_SHAPES), k=st.integers(0, 9)),
         # ---- concatenation
@@ -1207,6 +1207,31 @@ class Tables(object):
             form = 'kw'
         if form in ('kw', 'relabel_kw', 'dict') and not m.cols:
             form = 'prefix'
+        if form in ('swap', 'rotate', 'chain'):
+            # several columns renamed AT ONCE, a new name being the old name of another renamed column: a swap, a rotation of three, a chain a->b, b->fresh
+            n = len(m.cols)
+            if n < 2:
+                form = 'kw' if n else 'prefix'
+            else:
+                i = col % n
+                if form == 'swap' or n == 2 and form == 'rotate':
+                    a, b = m.cols[i], m.cols[(i + 1) % n]
+                    mapping = {a: b, b: a}
+                elif form == 'rotate':
+                    a, b, c = m.cols[i], m.cols[(i + 1) % n], m.cols[(i + 2) % n]
+                    mapping = {a: b, b: c, c: a}
+                else:
+                    a, b = m.cols[i], m.cols[(i + 1) % n]
+                    mapping = {a: b, b: self._fresh(e, col)}
+                if col % 2:
+                    mapping = dict(list(mapping.items())[::-1])          # the same renames written in the other order
+                how = ['rename(**m)', 'relabel(**m)', 'rename(m)'][col % 3]
+                res = self._pure('d.%s with m = %s on %s' % (how, mapping, rd),
+                                 (lambda: d.rename(**mapping)) if how == 'rename(**m)' else (lambda: d.relabel(**mapping)) if how == 'relabel(**m)' else (lambda: d.rename(dict(mapping))))
+                self.flags.add('rename_onto_the_old_name_of_another_renamed_column')
+                cols = [mapping.get(c, c) for c in m.cols]
+                rows = [{mapping.get(c, c): v for c, v in r.items()} for r in m.rows]
+                return self._add('rename', res, T(cols, rows), [e])
         if form in ('kw', 'relabel_kw', 'dict'):
             old = m.cols[col % len(m.cols)]
             mapping = {old: self._fresh(e, col)}
@@ -2040,7 +2065,7 @@ SUBS = [
                     'construction (records incl. ragged, {col: list}, keyword columns with scalar / length-1 broadcast, pairs, rows + headers, header row, zip, '
                     'six empty forms, misfit lengths), d[c] = / d.c = / update (fit, scalar, length 1, tuple, misfit -> ValueError), del d[c] / del d.c, d[i], d[-i], '
                     'slices, boolean masks (list / array, all False, all True), integer lists (negative, repeated, range, array), d[[cols]], d[c1, c2], d & cols, d - cols, '
-                    'inc / exc by value, d[lambda], d(c = lambda) incl. dependent pairs, d(c = value), rename / relabel (kw, dict, prefix, suffix, function, list), '
+                    'inc / exc by value, d[lambda], d(c = lambda) incl. dependent pairs, d(c = value), rename / relabel (kw, dict, prefix, suffix, function, list; several columns at once where a new name is the old name of another renamed column: swap, rotation of three, chain), '
                     'do (all, *cols, [cols], [], [f, g], function of another column), + / concat / sum of tables (also of one table and itself with its columns reordered), + record(s) '
                     '(records over one key set each written in its own key order, cells distinguishable per column; also ragged), + None / 0, copy / inc() / exc() / dictable(d) / d[:], the statements d += record(s) / table / None, d -= cols, d &= cols, d |= {col: fitting list} '
                     '(old object kept alive and re-inspected), integer-list selection / deletion of a non-last column / selection again on one table; '
@@ -2056,7 +2081,7 @@ SUBS = [
                     'non-trivial = >= 3 operations, a table produced by one rule consumed by another, and an empty table / broadcast / concatenation with differing columns / '
                     'misfit assignment occurs; distinct = distinct history',
                floor=0.5,
-               class_floors={'empty': 0.3, 'broadcast': 0.1, 'concat_diffcols': 0.15, 'misfit': 0.15, 'chain': 0.4, 'mask_to_empty': 0.05,
+               class_floors={'rename_onto_the_old_name_of_another_renamed_column': 0.06, 'empty': 0.3, 'broadcast': 0.1, 'concat_diffcols': 0.15, 'misfit': 0.15, 'chain': 0.4, 'mask_to_empty': 0.05,
                              'records_same_keys_different_order': 0.1, 'concat_same_cols_different_order': 0.03,
                              'iadd': 0.15, 'take_delcol_take': 0.1,
                              # classes 11-20 of the brief (floors: about a third of the rate seen over seeds 1-3)
